@@ -45,8 +45,9 @@ DURFMTS = ["sec", "milli", "micro", "nano"]
 TIMEFMTS = ["unix", "unixmilli", "unixmicro", "unixnano"]
 
 
-def STRUCT(*fields):
-    return {"k": "struct", "f": list(fields)}
+def STRUCT(*fields, fb=None):
+    """fb: element type of an embedded fallback map[string]fb"""
+    return {"k": "struct", "f": list(fields), "fb": [fb] if fb is not None else []}
 
 
 DEFAULT = {"det": False, "nsn": False, "nmn": False, "oz": False, "sn": False, "ru": False, "ci": False, "ad": False}
@@ -79,6 +80,8 @@ HAND = [
     STRUCT(F("s", DUR, fmt="sec"), F("m", DUR, fmt="milli", omitzero=True), F("u", PTR(DUR), fmt="micro"), F("n", DUR, fmt="nano", string=True)),
     STRUCT(F("s", TIME, fmt="unix", omitzero=True), F("m", TIME, fmt="unixmilli")), STRUCT(F("u", TIME, fmt="unixmicro", string=True), F("n", PTR(TIME), fmt="unixnano")),
     STRUCT(F("bad", DUR), F("ok", INT(8))), STRUCT(F("bad", DUR, fmt="unix"), F("bad2", INT(8), fmt="sec")), STRUCT(F("bad", TIME, fmt="sec"), F("l", SLICE(DUR), fmt="sec")),
+    STRUCT(F("a", INT(8)), F("b", STR, omitempty=True), fb=ANY), STRUCT(F("Ab", INT(8), casing=1, omitzero=True), fb=INT(8)),
+    STRUCT(fb=SLICE(INT(8))), STRUCT(F("p", PTR(BOOL)), fb=MAP(STR, INT(8))), PTR(STRUCT(F("a", BOOL), fb=STR)),
     BYTES, BARR(0), BARR(2), SLICE(BYTES), MAP(STR, BYTES), PTR(BARR(1)),
     STRUCT(F("b", BYTES, omitempty=True), F("z", BYTES, omitzero=True), F("a", BARR(2), omitzero=True), F("e", BARR(0), omitempty=True), F("s", BYTES, string=True, omitempty=True)),
     STRUCT(F("n", FLOAT, string=True), F("p", PTR(INT(16, False)), string=True), F("s", STR, string=True), F("b", BOOL, string=True)),
@@ -95,6 +98,7 @@ ANYFAM = [ANY, SLICE(ANY), MAP(STR, ANY), PTR(ANY), ARRAY(1, ANY), STRUCT(F("x",
 ANY_UOPTS = [O(), O(ad=True), O(sn=True), O(sn=True, ad=True), O(ru=True, ci=True)]
 
 DUPFAM = [
+    STRUCT(F("a", INT(8)), F("Ab", INT(8), casing=1), fb=INT(8)), STRUCT(F("a", MAP(STR, INT(8))), fb=MAP(STR, INT(8))),
     MAP(STR, INT(8)), MAP(INT(8), INT(8)), MAP(INT(16, False), STR), MAP(STR, MAP(STR, INT(8))), MAP(STR, ANY), ANY,
     STRUCT(F("a", INT(8)), F("b", STR)), STRUCT(F("Ab", INT(8), casing=1), F("ab", INT(8))), STRUCT(F("a", MAP(STR, INT(8))), F("b", SLICE(INT(8)))),
     STRUCT(F("a", STRUCT(F("x", INT(8)), F("y", INT(8)))), F("b", PTR(STRUCT(F("x", INT(8)))))),
@@ -131,7 +135,7 @@ def random_types(seed, n, depth=3):
             numeric = t["k"] in ("int", "float", "dur", "time") or (t["k"] == "ptr" and t["e"]["k"] in ("int", "float"))
             fs.append(F(nm, t, omitzero=r.random() < 0.2, omitempty=r.random() < 0.2,
                         string=(r.random() < (0.3 if numeric else 0.04)), casing=r.choice([0, 0, 0, 1, 2]), fmt=fmt))
-        return STRUCT(*fs)
+        return STRUCT(*fs, fb=(r.choice([ANY, INT(8), STR, SLICE(BOOL)]) if r.random() < 0.15 else None))
 
     return [gen(depth) for _ in range(n)]
 
@@ -172,6 +176,8 @@ def count_values(t, d):
     n = 1
     for f in t["f"]:
         n *= count_values(f["t"], _dec(d))
+    if t.get("fb"):
+        n *= 2 + count_values(t["fb"][0], 0) * (3 if t["f"] else 1)
     return n
 
 
